@@ -176,6 +176,8 @@ type c13Case struct {
 	// checker
 	Selected []string `json:"selected,omitempty"`
 	ViaCtx   bool     `json:"viaCtx,omitempty"` // use PersistContext setters instead of TypedBucket setters
+	// NilChecker: when nothing is selected the checker is the nil MapFieldChecker (a non-nil FieldChecker selecting nothing)
+	NilChecker bool `json:"nilChecker,omitempty"`
 	// Overrides: stored field name -> name the checker is asked about (PersistContext.WithFieldOverrides / NewMappedFieldChecker)
 	Overrides map[string]string `json:"overrides,omitempty"`
 	// codec
@@ -329,8 +331,9 @@ func genC13(t *rapid.T) c13Case {
 		n := rapid.IntRange(2, 6).Draw(t, "nFields")
 		kinds := []string{"s", "i32", "i64", "b", "t", "strlist", "map", "sp"}
 		if !c.ViaCtx {
-			kinds = append(kinds, "f64")
+			kinds = append(kinds, "f64", "strlist-gas", "list", "list")
 		}
+		c.NilChecker = rapid.IntRange(0, 3).Draw(t, "nilChecker") == 0
 		for i := 0; i < n; i++ {
 			l := fmt.Sprintf("f%d", i)
 			k := kinds[rapid.IntRange(0, len(kinds)-1).Draw(t, l+"_kind")]
@@ -339,6 +342,22 @@ func genC13(t *rapid.T) c13Case {
 			case "strlist":
 				f.V = TV{K: "strlist", SL: [][]byte{[]byte("a"), []byte("b")}}
 				f.V2 = TV{K: "strlist", SL: [][]byte{genBytes(t, l+"_sl2"), []byte("c")}}
+			case "strlist-gas":
+				// GetAndSetStringList over an existing list; the new value may repeat members of the stored set
+				f.V = TV{K: "strlist-gas", SL: [][]byte{[]byte("a"), []byte("b"), []byte("c")}}
+				pool := [][]byte{[]byte("a"), []byte("b"), []byte("c"), []byte("d")}
+				var sl [][]byte
+				for j, m := 0, rapid.IntRange(0, 4).Draw(t, l+"_gasn"); j < m; j++ {
+					sl = append(sl, pool[rapid.IntRange(0, 3).Draw(t, fmt.Sprintf("%s_gas%d", l, j))])
+				}
+				f.V2 = TV{K: "strlist-gas", SL: sl}
+			case "list":
+				// a top-level list (PutList) overwritten by another list: elements may change between scalar, map, list and nil
+				f.V = TV{K: "list", L: []TV{genContainer(t, l+"_la0", 2), genContainer(t, l+"_la1", 2), genContainer(t, l+"_la2", 1)}}
+				f.V2 = TV{K: "list"}
+				for j, m := 0, rapid.IntRange(0, 4).Draw(t, l+"_lbn"); j < m; j++ {
+					f.V2.L = append(f.V2.L, genContainer(t, fmt.Sprintf("%s_lb%d", l, j), 2))
+				}
 			case "map":
 				f.V = TV{K: "map", M: []KV{{Key: []byte("k"), V: TV{K: "s", B: []byte("one")}}}}
 				f.V2 = TV{K: "map", M: []KV{{Key: []byte("k2"), V: genScalar(t, l+"_mv", c13MapLeafKinds)}}}
@@ -481,6 +500,10 @@ func writeField(b *boltz.TypedBucket, name string, v TV, checker boltz.FieldChec
 		b.SetTimeP(name, nil, checker)
 	case "strlist":
 		b.SetStringList(name, toStrings(v.SL), checker)
+	case "strlist-gas":
+		b.GetAndSetStringList(name, toStrings(v.SL), checker)
+	case "list":
+		b.PutList(name, v.goValue().([]interface{}), checker)
 	case "map":
 		b.PutMap(name, v.goValue().(map[string]interface{}), checker, true)
 	default:
@@ -551,7 +574,11 @@ func checkField(b *boltz.TypedBucket, name string, v TV) string {
 		if b.GetInt64(name) != nil || b.GetBool(name) != nil || b.GetTime(name) != nil || b.GetFloat64(name) != nil || b.GetInt32(name) != nil {
 			return fmt.Sprintf("%s: wrote null, a typed getter returned a value", name)
 		}
-	case "strlist":
+	case "list":
+		if d := sameRead(v, b.GetList(name)); d != "" {
+			return fmt.Sprintf("%s: %s", name, d)
+		}
+	case "strlist", "strlist-gas":
 		want := kit.SortedSet(toStrings(v.SL))
 		got := b.GetStringList(name)
 		if fmt.Sprintf("%q", got) != fmt.Sprintf("%q", want) && !(len(got) == 0 && len(want) == 0) {
@@ -639,7 +666,12 @@ func runC13(c c13Case) kit.Result {
 			return nil
 		})
 	case "checker":
-		sel := boltz.MapFieldChecker{}
+		var sel boltz.MapFieldChecker // nil: selects nothing, like the empty map
+		if !(c.NilChecker && len(c.Selected) == 0) {
+			sel = boltz.MapFieldChecker{}
+		} else {
+			res.Classes = append(res.Classes, "nil-map-field-checker")
+		}
 		for _, s := range c.Selected {
 			sel[s] = struct{}{}
 		}
